@@ -173,7 +173,7 @@ fn main() {
                 else if o.samples != d.samples { out.viol("prefix-readers-disagree", &format!("byte reader delivers {} samples, sample reader {} on the same prefix", o.samples.len(), d.samples.len()), &pin); }
             }
         }
-        if cases < scale(if thorough { 200 } else { 40 }) && snapshot.len() < 1500 {
+        if cases < scale(if thorough { 200 } else { 40 }) && snapshot.len() < 1500 && pcm.len() <= MODEL_MAX_SAMPLES {
             cases += 1;
             // a few mid-frame prefixes for the model diff
             for cut in [snapshot.len(), frame_ends[0].saturating_sub(1), meta_len + 3] {
